@@ -1,6 +1,7 @@
 package interpreter
 
 import (
+	"encoding/json"
 	"fmt"
 	"math/big"
 
@@ -43,8 +44,8 @@ func (v Portion) MarshalJSON() ([]byte, error) {
 }
 
 func (v Monetary) MarshalJSON() ([]byte, error) {
-	m := fmt.Sprintf("\"%s %s\"", v.Asset, v.Amount.String())
-	return []byte(m), nil
+	// the asset may come from a variable and hold any character: it has to be escaped
+	return json.Marshal(v.String())
 }
 
 func (v String) String() string {
